@@ -2,14 +2,15 @@
 C06 — State cache never returns a wrong value for a block.
 
 Model: `Verif.Model.StateCache` (LRU-exact `StateCache.Get` / `commit`, block / transaction / query caches, as the code
-is at /repo HEAD); specification: `Verif.Model.StateCacheSpec` (committed block tree, ancestor-chain answer `Chain`,
-demanded answer of a context `Answer`, per-history predicates `AllOK`, `NoEviction`, `Lifecycle`).
+is at /repo HEAD, including the `committed` flag of a block cache); specification: `Verif.Model.StateCacheSpec`
+(committed block tree, ancestor-chain answer `Chain`, demanded answer of a context `Answer`, per-history predicates
+`AllOK`, `NoEviction`).
 
 Full statement `C06_full`: in every history every lookup hit at every layer carries exactly the demanded value and a
-removed key misses (`AllOK true`). It is FALSE of the code (two open findings, both with a concrete witness below and a
-replay on the implementation in corpus/C06/): `C06_full_false_capacity`, `C06_full_false_lifecycle`.
-Proved: `C06_partial` (= the full statement under `NoEviction` and `Lifecycle`), `C06_code_view` (only `NoEviction`, for
-the code's own notion of a block cache's context), `memo_sound` (the invariant), `fork_independent`.
+removed key misses. It is FALSE of the code (open finding C06-capacity-eviction, concrete witness below and a replay on
+the implementation in corpus/C06/): `C06_full_false_capacity`.
+Proved: `C06_partial` (= the full statement under `NoEviction`), `C06_static` (static operation counts instead),
+`memo_sound` (the invariant), `fork_independent`, `commit_elsewhere`.
 -/
 import Verif.Lemmas.StateCacheWitness
 import Verif.Lemmas.StateCacheBound
@@ -18,10 +19,9 @@ open Verif.SC
 
 variable {H K B V : Type} [DecidableEq H] [DecidableEq K] [DecidableEq B]
 
-/-- The property at full strength: for every capacity, every history from the empty cache is `AllOK` under the
-    literal reading of a context. -/
+/-- The property at full strength: for every capacity, every history from the empty cache is `AllOK`. -/
 def C06_full : Prop :=
-  ∀ (capK maxDepth : Nat) (ops : List (Op Nat Nat Nat Nat)), AllOK true (Sys.new capK maxDepth) [] ops
+  ∀ (capK maxDepth : Nat) (ops : List (Op Nat Nat Nat Nat)), AllOK (Sys.new capK maxDepth) [] ops
 
 /-- `memo_sound` (the invariant): after any history without eviction, every entry present in any version map — a
     block's own write or a memoised ancestor value — is the ancestor-chain answer of the committed tree for that key
@@ -48,18 +48,13 @@ theorem memo_sound (capK maxDepth : Nat) (ops : List (Op H K B V))
       exact ⟨by rw [hp], hw⟩
   · cases h
 
-/-- `C06_code_view`: without eviction, every hit at every layer (transaction, block, query, state) equals the value
-    most recently written on the context's chain — own pending writes first, then the chain of the block the context
-    sits on (for a block cache: its parent) — and a removed key misses. No life-cycle assumption. -/
-theorem C06_code_view (capK maxDepth : Nat) (ops : List (Op H K B V))
-    (hne : NoEviction (Sys.new capK maxDepth) ops) : AllOK false (Sys.new capK maxDepth) [] ops :=
-  Sys.run_ok _ ops (SysInv.init capK maxDepth) hne
-
-/-- `C06_partial`: the full statement under the two hypotheses that exclude exactly the two open findings. -/
+/-- `C06_partial`: without eviction, every hit at every layer (transaction, block, query, state) equals the value most
+    recently written on the context's chain — own pending writes first, then the chain of the block the context sits on
+    (for a block cache: its parent while the block is being built, the block itself once it is committed) — and a
+    removed key misses. The hypothesis excludes exactly the open capacity finding. -/
 theorem C06_partial (capK maxDepth : Nat) (ops : List (Op H K B V))
-    (hne : NoEviction (Sys.new capK maxDepth) ops) (hlc : Lifecycle (Sys.new capK maxDepth) [] ops) :
-    AllOK true (Sys.new capK maxDepth) [] ops :=
-  (C06_code_view capK maxDepth ops hne).of_lifecycle hlc
+    (hne : NoEviction (Sys.new capK maxDepth) ops) : AllOK (Sys.new capK maxDepth) [] ops :=
+  Sys.run_ok _ ops (SysInv.init capK maxDepth) hne
 
 /-- `noEviction_of_counts`: a static sufficient condition for `NoEviction`, checkable by inspecting the history: for
     every key, the number of lookups of that key plus the number of block commits is at most the per-key capacity
@@ -72,13 +67,11 @@ theorem noEviction_of_counts (capK maxDepth : Nat) (ops : List (Op H K B V))
   Sys.run_noEviction capK maxDepth ops _ (fun _ => 0) 0 (Len.init capK maxDepth)
     (fun k => by simpa using hK k) (by simpa using hC)
 
-/-- `C06_static`: the full statement for every history that respects the life cycle and stays within the static
-    counts — no run-time hypothesis. -/
+/-- `C06_static`: the full statement for every history that stays within the static counts — no run-time hypothesis. -/
 theorem C06_static (capK maxDepth : Nat) (ops : List (Op H K B V))
     (hK : ∀ k, (ops.filter (fun o => o.touches k)).length ≤ capK)
-    (hC : (ops.filter (fun o => o.isCommit)).length ≤ maxDepth)
-    (hlc : Lifecycle (Sys.new capK maxDepth) [] ops) : AllOK true (Sys.new capK maxDepth) [] ops :=
-  C06_partial capK maxDepth ops (noEviction_of_counts capK maxDepth ops hK hC) hlc
+    (hC : (ops.filter (fun o => o.isCommit)).length ≤ maxDepth) : AllOK (Sys.new capK maxDepth) [] ops :=
+  C06_partial capK maxDepth ops (noEviction_of_counts capK maxDepth ops hK hC)
 
 /-- `fork_independent`: the answer for `(k, b)` only reads the blocks on `b`'s own ancestor chain — two trees that agree
     on those blocks give the same answer. -/
@@ -126,51 +119,23 @@ theorem C06_full_false_capacity : ¬ C06_full := by
   have : Entry.val (1 : Nat) = Entry.val 2 := Chain.det hans witnessCap_oracle
   cases this
 
-/-- the capacity witness respects the life cycle (so `NoEviction` alone is what it violates) -/
-example : Lifecycle (Sys.new 2 8 : Sys Nat Nat Nat Nat) [] (witnessCap ++ [.sget 0 12]) := by
-  decide
-
-/-! ### the full statement is false: life-cycle witness (finding C06-blockcache-after-commit) -/
-
-theorem C06_full_false_lifecycle : ¬ C06_full := by
-  intro h
-  have hall := h 200 2000 (witnessLife ++ [.bget 1 0])
-  have hop := AllOK.nth witnessLife (.bget 1 0) [] hall
-  have hctx : ((Sys.new 200 2000 : Sys Nat Nat Nat Nat).run witnessLife).1.ctx
-      ((Sys.new 200 2000 : Sys Nat Nat Nat Nat).treeRun [] witnessLife) true (.bget 1 0) = some ([[]], 11, 0) := by
-    decide
-  have hans := (hop [[]] 11 0 hctx).1 1 witnessLife_hit
-  have horacle : Chain ((Sys.new 200 2000 : Sys Nat Nat Nat Nat).treeRun [] witnessLife) 0 11 (.val 2) :=
-    oracleN_sound (n := 2) (by decide)
-  have hch : Chain ((Sys.new 200 2000 : Sys Nat Nat Nat Nat).treeRun [] witnessLife) 0 11 (.val 1) := by
-    simpa [Answer, pendLookup] using hans
-  have : Entry.val (1 : Nat) = Entry.val 2 := Chain.det hch horacle
-  cases this
-
-/-- the life-cycle witness has no eviction (so `Lifecycle` alone is what it violates) -/
-example : NoEviction (Sys.new 200 2000 : Sys Nat Nat Nat Nat) (witnessLife ++ [.bget 1 0]) := by
-  unfold NoEviction; decide
-
 /-! ### the hypotheses of `C06_partial` are satisfiable by a non-trivial history -/
 
 /-- A writes k, B child of A, C child of B writes k (through a transaction), sibling fork F of B removes k; lookups at
-    B, C, F and through the layers; no eviction, life cycle respected -/
+    B, C, F and through the layers, including through C's block and transaction caches after C's commit; no eviction -/
 def sampleHistory : List (Op Nat Nat Nat Nat) :=
   [.blk 0 10 0, .bset 0 0 1, .bcommit 0,
    .blk 1 11 10, .bcommit 1,
    .blk 2 12 11, .txn 20 2, .tset 20 0 2, .tget 20 0, .bget 2 0, .tcommit 20, .bget 2 0, .bcommit 2,
    .blk 3 13 11, .txn 21 3, .trem 21 0, .tcommit 21, .bget 3 0, .bcommit 3,
-   .sget 0 11, .sget 0 12, .qget 13 0, .sget 0 12]
+   .sget 0 11, .sget 0 12, .qget 13 0, .sget 0 12, .bget 2 0, .tget 20 0, .bget 3 0]
 
 example : NoEviction (Sys.new 200 2000 : Sys Nat Nat Nat Nat) sampleHistory := by
   unfold NoEviction; decide
 
-example : Lifecycle (Sys.new 200 2000 : Sys Nat Nat Nat Nat) [] sampleHistory := by
-  decide
-
 example : ((Sys.new 200 2000 : Sys Nat Nat Nat Nat).run sampleHistory).2 =
     [.ok, .ok, .ok, .ok, .ok, .ok, .ok, .ok, .hit 2, .hit 1, .ok, .hit 2, .ok,
-     .ok, .ok, .ok, .ok, .miss, .ok, .hit 1, .hit 2, .miss, .hit 2] := by
+     .ok, .ok, .ok, .ok, .miss, .ok, .hit 1, .hit 2, .miss, .hit 2, .hit 2, .hit 2, .miss] := by
   decide
 
 end Verif.Props.C06
